@@ -7,6 +7,7 @@ import (
 	"github.com/jrhy/mast"
 	"pgregory.net/rapid"
 	"verif/harness/core"
+	"verif/harness/env"
 	"verif/harness/ref"
 	"verif/harness/run"
 )
@@ -103,6 +104,32 @@ func runC08(c HistCase, o *run.Obs) error {
 			}
 			if err := ww.CompareContents(lt.M, sr.Model); err != nil {
 				return fmt.Errorf("[%s] root name %q no longer identifies the contents it was returned for (cache pass %d): %w", c.Cfg, core.RootOf(sr.Root).Link, pass, err)
+			}
+		}
+	}
+	if cm, _ := c.Cfg.Codec(); cm == nil && c.Cfg.Val != core.VNil && c.Cfg.Format == ref.FormatBinary && len(roots) > 0 {
+		// a writer that names no value type (RemoteConfig without ValuesLike, registered types instead): what it writes is still
+		// a function of the entries alone, so the same contents get the same root name as under the ordinary configuration
+		sr := roots[len(roots)-1]
+		st := env.NewRecStore("mem://writer-without-valueslike")
+		rc := ww.RemoteConfig(st, nil)
+		rc.ValuesLike, rc.UnmarshalerUsesRegisteredTypes = nil, true
+		var wm *mast.Mast
+		if err := core.Safely("LoadMast", func() error { var e error; wm, e = ww.NewRoot().LoadMast(core.Ctx, rc); return e }); err == nil {
+			ok := true
+			for _, ki := range sr.Model.Keys() {
+				ki := ki
+				if core.Safely("Insert", func() error { return wm.Insert(core.Ctx, ww.Pool[ki], ww.Cfg.MakeVal(sr.Model[ki])) }) != nil {
+					ok = false
+					break
+				}
+			}
+			var r *mast.Root
+			if ok && core.Safely("MakeRoot", func() error { var e error; r, e = wm.MakeRoot(core.Ctx); return e }) == nil && r != nil {
+				if got, want := core.RootOf(*r).Link, core.RootOf(sr.Root).Link; got != want {
+					return fmt.Errorf("[%s] the contents %s persisted by a writer opened without ValuesLike (registered types) got root name %q, under the ordinary configuration %q: the bytes are not a function of the entries alone", c.Cfg, ww.DescribeModel(sr.Model), got, want)
+				}
+				o.Label("writer-without-valueslike")
 			}
 		}
 	}
